@@ -356,6 +356,22 @@ def strict_dumpers(exc_cls):
     return [dumper(int, d_int), dumper(str, d_str)]
 
 
+def strict_loaders(exc_cls):
+    """user supplied field loaders that refuse ill-typed values by raising exc_cls (not a LoadError)"""
+    from adaptix import loader
+
+    def l_int(v):
+        if type(v) is not int:
+            raise exc_cls(v)
+        return v
+
+    def l_str(v):
+        if type(v) is not str:
+            raise exc_cls(v)
+        return v
+    return [loader(int, l_int), loader(str, l_str)]
+
+
 HEAP = {"on": False}     # set by c20 before the workers fork: record heap observations of successful loads / dumps
 
 
@@ -465,9 +481,37 @@ def run_program(case: dict, seed: int, names: Names, out: dict, kind=None) -> No
         add("C03", "loader_creation_verdict", f"documented: {'created' if case['created_in'] else 'refused'}; observed: "
             f"{'created' if created else 'refused'}")
     if created and case["created_in"]:
+        user_loaders: dict = {}
         for probe in case["probes"]:
             datum = render_data(probe["d"], shape, names)
             mo = probe["out"]
+            if has_bad(probe["d"]) and not mo["ok"] and any(e["kind"] == "Leaf" for e in mo["errs"]):
+                # the same probe with USER supplied field loaders that refuse an ill-typed leaf by raising a non-LoadError: loading
+                # fails in every mode, and what escapes is a bare exception or a plain ExceptionGroup - never a LoadError (an
+                # AggregateLoadError) with a leaf that is not a LoadError (C04)
+                if not user_loaders:
+                    exc_cls = STRICT_EXC[int(stable_hash([case["shape"], case["ovs"]]), 16) % len(STRICT_EXC)]
+                    try:
+                        for dt in DebugTrail:
+                            user_loaders[dt.name] = retort_in.extend(recipe=strict_loaders(exc_cls)).replace(debug_trail=dt).get_loader(model_in)
+                    except Exception:  # noqa: BLE001
+                        user_loaders = {"-": None}
+                if "-" not in user_loaders:
+                    verdicts = {}
+                    for dtname, ul in user_loaders.items():
+                        out["runs"] += 1
+                        try:
+                            verdicts[dtname] = ("ok", ul(render_data(probe["d"], shape, names)))
+                        except BaseException as e:  # noqa: BLE001
+                            verdicts[dtname] = ("err", e)
+                    oks = sorted(k for k, v in verdicts.items() if v[0] == "ok")
+                    if oks and len(oks) < 3:
+                        add("C06", "load_verdict_differs_between_modes_with_user_loaders", f"{datum!r}: accepted under {oks} only", {"modes_ok": oks}, probe=probe["d"])
+                    for dtname, (tag, exc) in verdicts.items():
+                        if tag == "err" and isinstance(exc, LoadError) and any(x[1].startswith("FOREIGN") for x in flat_model_errors(exc)):
+                            add("C04", "load_error_with_foreign_leaf", f"{dtname}: {datum!r} with user field loaders raising {STRICT_EXC[0].__name__}-like errors: "
+                                f"{type(exc).__name__} (a LoadError) carries {[x[1] for x in flat_model_errors(exc) if x[1].startswith('FOREIGN')][:2]}",
+                                {"exc": "user_loader_in_model"}, probe=probe["d"], dt=dtname)
             for dtname, loader in loaders.items():
                 out["runs"] += 1
                 del ctor_log[:]
